@@ -705,7 +705,18 @@ def check_c13(tier, deadline):
             rep.add(san_signature(("ERROR: " + blk).replace("\n", "|")), ("ERROR: " + blk)[:900], {"engine": "misc", "mode": "residue", "tier": tier, "flavour": "asan", "input": (sweep["crashed"] or ["?"])[0]})
     elif sweep["crashed"]:
         rep.add("crash/residue_sweep_under_asan", "worker died on " + sweep["crashed"][0] + " :: " + r.stderr[-400:], {"engine": "misc", "mode": "residue", "tier": tier, "flavour": "asan", "input": sweep["crashed"][0]})
+    # the typed setters' (type, dimensions, size) table, incl. reshapes through the parameter's own storage with heap-allocated strings
+    sc = scratch_dir("c13setters"); out = os.path.join(sc, "out.json")
+    r = sh([os.path.join(bdir, "drv_misc"), "--mode", "setters", "--tier", tier, "--scratch", sc, "--out", out, "--workers", str(WORKERS)], env=env, capture_output=True, text=True)
+    setters = json.load(open(out)) if os.path.exists(out) else None
+    shutil.rmtree(sc, ignore_errors=True)
+    if "AddressSanitizer" in r.stderr or "runtime error:" in r.stderr:
+        for blk in r.stderr.split("==ERROR: ")[1:]:
+            rep.add(san_signature(("ERROR: " + blk).replace("\n", "|")), ("ERROR: " + blk)[:900], {"engine": "misc", "mode": "setters", "tier": tier, "flavour": "asan", "input": "setter table"})
+    elif setters is None:
+        rep.add("crash/setter_table_under_asan", "driver died :: " + r.stderr[-400:], {"engine": "misc", "mode": "setters", "tier": tier, "flavour": "asan", "input": "setter table"})
     rep.coverage = cov_from_api(runs)
+    rep.coverage["setter_table_under_asan"] = {"evaluations": setters["evaluations"] if setters else 0}
     rep.coverage["files_under_asan"] = {k: fd[k] for k in ("mode", "devs", "cases", "done", "outcomes", "crashes_total")}
     rep.coverage["evaluations"] += fd["done"]
     rep.coverage["length_sweep_under_asan"] = {"objects": sweep["done"], "of": sweep["cases"]}
